@@ -258,3 +258,16 @@ package vecengine
 //@   loop 5 invariant [self] hbFork(hv(myVecs.before), meBranchID) || hbSeq(hv(myVecs.before), meBranchID) >= e.Seq()
 //@   loop 6 invariant 0 <= _k && _k <= len(_range) && isHB(myVecs.before)
 //@   loop 7 invariant 0 <= _k && _k <= len(_range) && isHB(myVecs.before)
+//@
+//@ // ---- the event-branch table against the REAL store (view "real"; callers use the model gBranchOf) ----
+//@ viewfunc real (*Engine).SetEventBranchID
+//@   requires vi != nil && vi.crit != nil && vi.table.EventBranch != nil
+//@   modifies gKeyValueWriterPutN, gKeyValueWriterPutRecv, gKeyValueWriterPutA0, gKeyValueWriterPutA1, gKeyValueWriterPutR0, gWrOpN, gWrOpKind[*], gWrOpRecv[*], gWrOpKey[*], gWrOpVal[*], gWrOpErr[*]
+//@   ensures  gKeyValueWriterPutN == old(gKeyValueWriterPutN) + 1 && gKeyValueWriterPutRecv == vi.table.EventBranch && len(gKeyValueWriterPutA0) == 32 && forall(j, 0, 32, gKeyValueWriterPutA0[j] == id[j])
+//@   ensures  [value] len(gKeyValueWriterPutA1) == 4 && be32(gKeyValueWriterPutA1) == branchID
+//@ viewfunc real (*Engine).GetEventBranchID
+//@   requires vi != nil && vi.crit != nil && vi.table.EventBranch != nil && gValLen[vi.table.EventBranch] == 4
+//@   modifies gKeyValueReaderGetN, gKeyValueReaderGetRecv, gKeyValueReaderGetA0, gKeyValueReaderGetR0, gKeyValueReaderGetR1
+//@   ensures  gKeyValueReaderGetN == old(gKeyValueReaderGetN) + 1 && gKeyValueReaderGetRecv == vi.table.EventBranch && len(gKeyValueReaderGetA0) == 32 && forall(j, 0, 32, gKeyValueReaderGetA0[j] == id[j])
+//@   ensures  [absent] gKeyValueReaderGetR0 == nil ==> result == 0
+//@   ensures  [value] gKeyValueReaderGetR0 != nil ==> result == be32(gKeyValueReaderGetR0)
